@@ -2,6 +2,7 @@ import OdcGeo.Model.C20
 import OdcGeo.Model.C20Glue
 import OdcGeo.Model.C20NonFinite
 import OdcGeo.Model.C20Seq
+import OdcGeo.Model.C20NormXy
 namespace OdcGeo.C20.Drv
 open OdcGeo OdcGeo.IO OdcGeo.C20
 
@@ -88,6 +89,14 @@ def run (args : List String) : Option String :=
       | some [ny, nx] => some (ny, nx)
       | _ => none) shape
     pure (fmtList fmtPt (quasiRandomR2 C14.fl64 n shape offset))
+  | ["normxy", pts, ds, r2] => do
+    -- binary64, bit for bit (C14's fl64): normalised points, then `s tx ty` of the affine
+    let pts ← parseList? parsePt? pts; let ds ← parseList? parseRat? ds; let r2 ← parseRat? r2
+    let N := normXyF C14.fl64 pts ds r2
+    pure s!"{fmtList fmtPt N.pts} {fmtRat N.s} {fmtRat N.tx} {fmtRat N.ty}"
+  | ["normxysq", pts] => do
+    let pts ← parseList? parsePt? pts
+    pure (fmtList fmtRat (normXySq C14.fl64 pts))
   | ["polymk", shape, cc, A, x, y] => do
     let shape ← parseList? parseNat? shape; let cc ← parseList? parsePt? cc; let A ← parseAff? A
     let x ← parseRat? x; let y ← parseRat? y
@@ -107,6 +116,12 @@ def run (args : List String) : Option String :=
       | some B => P.withInputTransform B
       | none => P
     pure (fmtList fmtPt (P.callN pts))
+  | ["polycalllast2", k, cc, A, shape, pts] => do
+    -- P(X) for X of shape (*shape, 2): flat row-major list of the output pairs (output shape = reversed(shape) + (2,))
+    let k ← parseNat? k; let cc ← parseList? parsePt? cc; let A ← parseAff? A
+    let shape ← parseList? parseNat? shape; let pts ← parseList? parsePt? pts
+    let P : Poly2d := ⟨Poly2d.reshape k cc, A⟩
+    pure (fmtList fmtPt (P.callLast2 shape pts))
   | ["bineq", sz, o, d, sz2, o2, d2] => do
     let sz ← parseRat? sz; let o ← parseRat? o; let d ← parseInt? d
     let sz2 ← parseRat? sz2; let o2 ← parseRat? o2; let d2 ← parseInt? d2
